@@ -1,65 +1,288 @@
-"""C21 (BOUNDED stand-in, not a proof): run-time-checked contracts on the real ModuleGraph / tsort.
+"""C21: (1) Verus unit on the real text of erg_common/tsort.rs (dfs, tsort, the error constructors): the topological order and
+the cycle report, for every graph, with termination; (2) BOUNDED stand-in (not a proof): run-time-checked contracts on the real
+ModuleGraph operations.
 
 No deductive back end reaches these functions (Kani does not terminate on hashbrown's probe loops - a 2-node tsort ran
 25 min without result; Verus rejects `iter().find(closure)`, `for x in set.iter()`, `iter_mut()`, `retain(closure)`, which is
 what these functions consist of). The contracts are therefore executable predicates (replay/src/c21.rs) over an abstract view
 (vertex set, edge set) and are checked after EVERY operation of EVERY operation sequence up to a stated length."""
 import json
+import os
+import re
 import subprocess
 import time
 
 from vlib import replay
 from vlib.snippet import Undecided
 from vlib.extract import Source
+from vlib.snippet import Snippet
+from vlib.verus_unit import VerusUnit
+from vlib import rules
+
+HERE = os.path.dirname(os.path.abspath(__file__))
+TSORT = 'crates/erg_common/tsort.rs'
+
+DFS_SPEC = """requires
+        order_ok(g@, old(used)@, old(idx)@),
+        !old(used)@.contains(v),
+        // the vertices that are being visited (used, not yet listed) are the ancestors of v on the current search path
+        forall|x: u64| gray(old(used)@, old(idx)@, x) ==> reach(g@, x, v),
+    ensures
+        res.is_ok() ==> {
+            &&& order_ok(g@, final(used)@, final(idx)@)
+            &&& old(used)@.subset_of(final(used)@)
+            &&& old(idx)@.is_prefix_of(final(idx)@)
+            &&& final(idx)@.contains(v)
+            &&& forall|x: u64| #![trigger gray(final(used)@, final(idx)@, x)] #![trigger gray(old(used)@, old(idx)@, x)] gray(final(used)@, final(idx)@, x) <==> gray(old(used)@, old(idx)@, x)
+        },
+        // a cycle is reported only when there is one
+        res matches Err(e) && e.kind == TopoSortErrorKind::CyclicReference ==> has_cycle(g@),
+        res matches Err(e) && e.kind == TopoSortErrorKind::KeyNotFound ==> exists|x: u64| (x == v || reach(g@, v, x)) && !has_node(g@, x),
+    decreases unused(g@, old(used)@).len(),"""
+
+DFS_LOOP = """invariant
+            verif_i <= verif_elems.len(),
+            has_node(g@, v),
+            forall|x: u64| #![trigger deps(g@, v).contains(x)] #![trigger verif_elems@.contains(x)] deps(g@, v).contains(x) <==> verif_elems@.contains(x),
+            order_ok(g@, used@, idx@),
+            verif_used0.insert(v).subset_of(used@),
+            verif_idx0.is_prefix_of(idx@),
+            !idx@.contains(v),
+            !verif_used0.contains(v), verif_used0 == old(used)@, verif_idx0 == old(idx)@,
+            forall|x: u64| #![trigger gray(used@, idx@, x)] #![trigger gray(verif_used0, verif_idx0, x)] gray(used@, idx@, x) <==> (gray(verif_used0, verif_idx0, x) || x == v),
+            forall|x: u64| gray(verif_used0, verif_idx0, x) ==> reach(g@, x, v),
+            forall|j: int| 0 <= j < verif_i ==> idx@.contains(verif_elems@[j]),
+        decreases verif_elems.len() - verif_i,"""
+
+TSORT_SPEC = """ensures
+        // Ok: the same nodes, every node after the nodes it depends on - and then there is no cycle
+        res matches Ok(r) ==> r@.to_multiset() == g@.to_multiset() && sorted_ok(g@, r@) && !has_cycle(g@),
+        // a cycle is reported only when there is one
+        res matches Err(e) && e.kind == TopoSortErrorKind::CyclicReference ==> has_cycle(g@),
+        // KeyNotFound only for a dependency that is not a node of the graph
+        res matches Err(e) && e.kind == TopoSortErrorKind::KeyNotFound ==> exists|a: u64, x: u64| has_node(g@, a) && reach(g@, a, x) && !has_node(g@, x),"""
+
+TSORT_LOOP = """invariant
+            verif_k <= g.len(),
+            order_ok(g@, used@, idx@),
+            forall|x: u64| !gray(used@, idx@, x),
+            forall|j: int| 0 <= j < verif_k ==> idx@.contains(#[trigger] g@[j].id),
+        decreases g.len() - verif_k,"""
 
 
-def run(run, replay_path=None, replay=None):
+def mono(sn, generics_re):
+    """R5: T := u64, U := () (the functions use T only through Eq + Hash + Clone + Debug, U not at all)."""
+    sn.rw('R5', generics_re, '', expect=1)
+    sn.rw('R5', r'\bGraph<T, U>', 'Graph', expect='*')
+    sn.rw('R5', r'\bSet<T>', 'ErgSet', expect='*')
+    sn.rw('R5', r'\bVec<T>', 'Vec<u64>', expect='*')
+    sn.rw('R5', r':\s*T\b', ': u64', expect='*')
+    sn.rw('R5', r':\s*U\b', ': ()', expect='*')
+
+
+def build_verus(run):
+    src = Source(run.repo, TSORT)
+    unit = VerusUnit('C21', run.scratch)
+    unit.raw_file(os.path.join(HERE, 'prelude.rs'))
+    unit.raw("verus! {\n")
+    node = Snippet(src.item('struct', 'Node'), 'struct Node')
+    mono(node, r'<T: Eq \+ Hash \+ Immutable, U>')
+    unit.add(node)
+    kind = Snippet(src.item('enum', 'TopoSortErrorKind'), 'enum TopoSortErrorKind')
+    unit.raw("#[derive(Clone, Copy, PartialEq, Eq)]\n")
+    unit.add(kind)
+    err = Snippet(src.item('struct', 'TopoSortError'), 'struct TopoSortError')
+    unit.add(err)
+    unit.raw("impl TopoSortError {\n")
+    for (f, post) in (('new', 'res.kind == kind'), ('key_not_found', 'res.kind == TopoSortErrorKind::KeyNotFound'), ('cycle_detected', 'res.kind == TopoSortErrorKind::CyclicReference')):
+        sn = Snippet(src.fn(f, impl=r'TopoSortError'), 'TopoSortError::' + f)
+        sn.contract("ensures %s," % post)
+        unit.add(sn)
+    unit.raw("}\n")
+    # ---- reorder_by_key: std's stable sort by the position in idx. Its body stays unverified (assumed contract); what IS checked
+    # at the call site is the precondition that makes the `.unwrap()` inside the key closure safe.
+    rk = Snippet(src.fn('reorder_by_key'), 'reorder_by_key')
+    mono(rk, r'<T: Eq \+ Hash \+ Immutable, U>')
+    rk.rw('R7', r'\(mut g: Graph,', '(g: Graph,', expect=1)
+    rk.rw('R7', r'\{\s*g\.sort_by_key', '{ let mut g = g; g.sort_by_key', expect=1)
+    rk.kani_attrs("// @trusted: std contract of slice::sort_by_key (stable, a permutation ordered by the key) with key = Iterator::position (first index); body not verified\n#[verifier::external_body]")
+    rk.contract("""requires forall|i: int| 0 <= i < g@.len() ==> idx@.contains(#[trigger] g@[i].id),   // position(..).unwrap() never fails
+    ensures
+        res@.to_multiset() == g@.to_multiset(),
+        forall|a: int, b: int| 0 <= a < b < res@.len() ==> first_pos(idx@, res@[a].id) <= first_pos(idx@, res@[b].id),""")
+    unit.add(rk)
+    # ---- dfs (and a vacuity probe: the same text and proof under the same precondition with `ensures false` must be rejected)
+    for probe in (False, True):
+        dfs = Snippet(src.fn('dfs'), 'vacuity-probe dfs' if probe else 'dfs')
+        mono(dfs, r'<T: Eq \+ Hash \+ Clone \+ Debug \+ Immutable, U: Debug>')
+        rules.diagnostics(dfs)
+        dfs.rw('R4', r'g\.iter\(\)\.find\(\|n\| n\.id == v\)', 'w_find_node(g, v)', expect=1)
+        dfs.rw('R4', r'\bidx\.contains\((\w+)\)', r'w_vec_contains(idx, \1)', expect='*')
+        dfs.rw('R11', r'for node_id in vertex\.depends_on\.iter\(\) \{',
+               'let verif_elems = w_set_elems(&vertex.depends_on);\n    let mut verif_i: usize = 0;\n    while verif_i < verif_elems.len() {\n        let node_id = &verif_elems[verif_i]; verif_i = verif_i + 1;', expect=1)
+        if probe:
+            dfs.rename_fn('dfs__vacuity_probe')
+            run.extra.setdefault('vacuity_probe_labels', []).append(dfs.label)
+        dfs.contract(DFS_SPEC.split('ensures')[0] + 'ensures false,' if probe else DFS_SPEC)
+        dfs.body_prologue("let ghost verif_used0 = used@; let ghost verif_idx0 = idx@;")
+        dfs.insert_at(r'let mut verif_i: usize = 0;', "    proof { if verif_idx0.contains(v) { lemma_order_listed_used(g@, verif_used0, verif_idx0, v); } lemma_order_used(g@, verif_used0, used@, idx@); }", where='before')
+        dfs.loop_spec(0, DFS_LOOP)
+        dfs.insert_at(r'verif_i = verif_i \+ 1;', """        proof {
+            assert(verif_elems@.contains(*node_id)); lemma_edge_intro(g@, v, *node_id);
+            // a dependency that is being visited (used, not yet listed) closes a cycle
+            if gray(used@, idx@, *node_id) { if *node_id == v { lemma_self_cycle(g@, v); } else { lemma_cycle(g@, *node_id, v); } }
+        }""", where='after')
+        dfs.insert_at(r'dfs\(g, node_id\.clone\(\), used, idx\)\?;', """            proof {
+                    assert forall|x: u64| gray(used@, idx@, x) implies reach(g@, x, *node_id) by {
+                        if x == v { lemma_reach_refl_edge(g@, v, *node_id); } else { lemma_reach_step(g@, x, v, *node_id); }
+                    }
+                    // whatever unregistered vertex the callee reaches from node_id is reached from v
+                    assert forall|x: u64| !#[trigger] has_node(g@, x) && (x == *node_id || reach(g@, *node_id, x)) implies reach(g@, v, x) by {
+                        lemma_reach_prepend(g@, v, *node_id, x);
+                    }
+                    lemma_unused_dec(g@, verif_used0, used@, v);
+                    assert(unused(g@, used@).len() < unused(g@, verif_used0).len());
+                }
+                let ghost verif_idx1 = idx@;
+                let ghost verif_used1 = used@;""", where='before')
+        dfs.insert_at(r'dfs\(g, node_id\.clone\(\), used, idx\)\?;', """            proof {
+                    assert(gray(verif_used1, verif_idx1, v));
+                    assert forall|j: int| 0 <= j < verif_i implies idx@.contains(verif_elems@[j]) by {
+                        if j < verif_i - 1 { lemma_prefix_contains(verif_idx1, idx@, verif_elems@[j]); }
+                    }
+                }""", where='after')
+        dfs.insert_at(r'idx\.push\(', """    proof {
+            assert forall|d: u64| deps(g@, v).contains(d) implies idx@.contains(d) by {
+                let e = choose|e: int| 0 <= e < verif_elems@.len() && verif_elems@[e] == d;
+                assert(idx@.contains(verif_elems@[e]));
+            }
+            lemma_order_push(g@, used@, idx@, v);
+            lemma_push_contains(idx@, v);
+        }""", where='before')
+        dfs.insert_at(r'idx\.push\(', "    proof { assert(idx@[idx@.len() - 1] == v); }", where='after')
+        unit.add(dfs)
+    # ---- tsort (and its vacuity probe)
+    for probe in (False, True):
+        ts = Snippet(src.fn('tsort'), 'vacuity-probe tsort' if probe else 'tsort')
+        rules.strip_vis_attrs(ts)
+        mono(ts, r'<T: Eq \+ Hash \+ Clone \+ Debug \+ Immutable, U: Debug>')
+        ts.rw('R5', r'\bSet::new\(\)', 'ErgSet::new()', expect=1)
+        ts.rw('R11', r'for v in g\.iter\(\) \{', 'let mut verif_k: usize = 0;\n    while verif_k < g.len() {\n        let v = &g[verif_k]; verif_k = verif_k + 1;', expect=1)
+        if probe:
+            ts.rename_fn('tsort__vacuity_probe')
+            run.extra.setdefault('vacuity_probe_labels', []).append(ts.label)
+        ts.contract('ensures false,' if probe else TSORT_SPEC)
+        ts.insert_at(r'let mut verif_k: usize = 0;', "    proof { reveal(order_ok); }", where='before')
+        ts.loop_spec(0, TSORT_LOOP)
+        ts.insert_at(r'verif_k = verif_k \+ 1;', "        proof { assert(!gray(used@, idx@, v.id)); }", where='after')
+        ts.insert_at(r'dfs\(&g, v\.id\.clone\(\), &mut used, &mut idx\)\?;', """            let ghost verif_idx1 = idx@;
+                proof {
+                    lemma_has_node(g@, verif_k - 1);
+                    assert forall|x: u64| !#[trigger] has_node(g@, x) && (x == v.id || reach(g@, v.id, x)) implies has_node(g@, v.id) && reach(g@, v.id, x) by { }
+                }""", where='before')
+        ts.insert_at(r'dfs\(&g, v\.id\.clone\(\), &mut used, &mut idx\)\?;', """            proof {
+                    assert forall|j: int| 0 <= j < verif_k implies idx@.contains(#[trigger] g@[j].id) by {
+                        if j < verif_k - 1 { lemma_prefix_contains(verif_idx1, idx@, g@[j].id); }
+                    }
+                }""", where='after')
+        ts.insert_at(r'Ok\(reorder_by_key\(g, idx\)\)', """    proof {
+            assert forall|x: u64| has_node(g@, x) implies idx@.contains(x) by {
+                reveal(has_node);
+                let i = choose|i: int| 0 <= i < g@.len() && g@[i].id == x;
+                assert(idx@.contains(g@[i].id));
+            }
+            lemma_order_acyclic(g@, used@, idx@);
+            assert forall|r: Seq<Node>| r.to_multiset() == g@.to_multiset()
+                && (forall|a: int, b: int| 0 <= a < b < r.len() ==> first_pos(idx@, r[a].id) <= first_pos(idx@, r[b].id)) implies #[trigger] sorted_ok(g@, r) by {
+                lemma_sorted(g@, used@, idx@, r);
+            }
+        }""", where='before')
+        unit.add(ts)
+    unit.raw("} // verus!\n")
+    run.sample({"function": "tsort", "ensures": "Ok(r): r is a permutation of the nodes and every node comes after every node it depends on (hence no cycle); Err(CyclicReference) only if the graph has a cycle; Err(KeyNotFound) only if some dependency is not a node; terminates"})
+    run.sample({"function": "dfs", "ensures": "keeps the order invariant (no duplicates, dependencies listed first), lists v, leaves the search path unchanged; a reported cycle is a real one (the vertices being visited all reach v); terminates (the number of unvisited nodes decreases)"})
+    return unit
+
+
+def tsort_replay(run, n=3):
+    """E-R: the contract of the real tsort checked at run time on every graph with n nodes (every rotation, unregistered dependency
+    included). Returns a counterexample dict."""
     from vlib import replay as rp
-    # the functions under (run-time-checked) contract must still be there
-    g = Source(run.repo, 'crates/erg_compiler/module/graph.rs')
-    t = Source(run.repo, 'crates/erg_common/tsort.rs')
-    fns = []
-    for f in ('get_node', 'depends_on', 'deep_depends_on', 'children', 'parents', 'ancestors', 'add_node_if_none', 'inc_ref', 'sorted', 'remove', 'rename_path'):
-        fns.append(g.fn(f, impl=r'ModuleGraph').describe())
-    for f in ('dfs', 'tsort', 'reorder_by_key'):
-        fns.append(t.fn(f).describe())
-    run.functions.extend(fns)
+    binary = rp.build(run, 'c21t', deps=('erg_common',))
+    p = subprocess.run([binary, str(n)], capture_output=True, text=True, timeout=3600)
+    try:
+        js = json.loads(p.stdout.strip().split('\n')[-1])
+    except Exception:
+        return {"found": False, "note": "tsort replay produced no result: " + p.stderr[-300:]}
+    run.extra["tsort_replay_graphs"] = run.extra.get("tsort_replay_graphs", 0) + js["graphs"]
+    if js["violations"]:
+        v = js["violations"][0]
+        return {"found": True, "how": "the real erg_common::tsort::tsort run on every graph with %d nodes" % n, "input": v.split(': ')[0],
+                "real_result": v.split(': ', 1)[-1], "oracle": "reachability in the dependency relation (cycle / unregistered dependency / order)",
+                "verdict": "tsort breaks its contract: " + v[:200], "replay_cmd": "%s %d" % (binary, n), "all": js["violations"]}
+    return {"found": False, "note": "all %d graphs with %d nodes satisfy the contract" % (js["graphs"], n)}
+
+
+def run_verus(run):
+    run.fallbacks.append(("tsort", lambda: tsort_replay(run, 3)))
+    if run.tier == 'thorough':
+        run.explorations.append(("tsort (all graphs with 4 nodes)", lambda: tsort_replay(run, 4)))
+    unit = build_verus(run)
+    res = unit.run(rlimit=60)
+    run.add_verus(unit, res, cex_finder=lambda f: tsort_replay(run, 3), expect_fail=tuple(run.extra.get('vacuity_probe_labels', ())))
+
+
+def explore_graph_ops(run):
+    """BOUNDED stand-in for the ModuleGraph operations (not counted as proved): every operation sequence up to a stated length over a
+    stated number of paths on the real ModuleGraph against a reference graph. Returns {"findings": [...]}."""
+    from vlib import replay as rp
     binary = rp.build(run, 'c21')
     configs = [(3, 4, ''), (3, 3, 'raw'), (4, 3, 'raw')] if run.tier != 'thorough' else [(3, 5, ''), (4, 4, ''), (3, 4, 'raw'), (4, 3, 'raw')]
-    run.level = 'exploration'
     total_seq = total_checks = distinct = 0
     samples = []
-    t0 = time.time()
+    findings = []
     for (n, ln, raw) in configs:
         p = subprocess.run([binary, str(n), str(ln)] + ([raw] if raw else []), capture_output=True, text=True, timeout=7200)
         try:
             js = json.loads(p.stdout.strip().split('\n')[-1])
         except Exception:
-            raise Undecided("c21 exploration produced no result: " + p.stderr[-400:])
+            return {"found": False, "note": "c21 exploration produced no result: " + p.stderr[-400:]}
         total_seq += js["sequences"]
         total_checks += js["checks"]
         distinct += js["distinct_graphs_with_edges"]
         samples += js["samples"]
         for v in js["violations"]:
             what, _, trace = v.partition(' | trace: ')
-            key = "ModuleGraph|contract|" + what.split(':')[0].split('(')[0].replace('after ', '').strip() + '|' + what.split(': ', 1)[-1].split('(')[0][:40]
-            run.add_obligation(key, 'runtime-contract', False,
-                               detail={"msg": v},
-                               cex={"found": True, "how": "exhaustive enumeration of operation sequences on the real ModuleGraph against a reference graph",
-                                    "input": {"operation_sequence": trace, "paths": n}, "real_result": what, "oracle": "plain reference graph (vertex set, edge set)",
-                                    "verdict": "a query or postcondition disagrees with the reference graph",
-                                    "replay_cmd": "%s %d %d %s  # enumerates; the failing history is: %s" % (binary, n, ln, raw, trace)})
-        if not js["violations"]:
-            run.add_obligation("all sequences up to length %d over %d paths%s" % (ln, n, " incl. inc_ref to unregistered targets" if raw else ""), 'runtime-contract', True, cmd="%s %d %d %s" % (binary, n, ln, raw))
-    run.solver_time_s = time.time() - t0
-    run.bounded_note = "all operation sequences up to the stated length over the stated number of module paths; nothing beyond that bound is covered"
-    run.extra.update({
-        "evaluations": total_seq,
-        "distinct_nontrivial": distinct,
-        "rule": "every sequence of operations from {add_node_if_none(p), inc_ref(a, b), remove(p), rename_path(p, fresh), sort} up to length L over N paths (quick: %s); after every operation: registered modules, get_node, depends_on, deep_depends_on, ancestors, children for every path (pair) are compared with a reference graph; inc_ref refused <=> the edge closes a cycle and then the edge set is unchanged; sorted lists every module after its dependencies, fails only on a cycle. distinct_nontrivial = distinct final reference graphs with at least one edge." % (configs,),
-        "samples": samples[:6] or ["(none)"],
-        "exhaustive": True,
-        "postcondition_checks": total_checks,
-    })
-    run.samples = samples[:6]
-    run.assumptions.append("BOUNDED: exhaustive only up to the stated sequence length and number of paths; run-time-checked contracts, not a deductive proof. Two op sets: the usual one registers an import target before inc_ref; the 'raw' one also calls inc_ref with an unregistered target (sort may then answer KeyNotFound, which is accepted). Rename targets are fresh paths.")
+            key = what.split(':')[0].split('(')[0].replace('after ', '').strip() + '|' + what.split(': ', 1)[-1].split('(')[0][:40]
+            if any(f["key"] == key for f in findings):
+                continue
+            findings.append({"key": key, "how": "exhaustive enumeration of operation sequences on the real ModuleGraph against a reference graph",
+                             "input": {"operation_sequence": trace, "paths": n}, "real_result": what, "oracle": "plain reference graph (vertex set, edge set)",
+                             "verdict": "a query or postcondition disagrees with the reference graph: " + what[:160],
+                             "replay_cmd": "%s %d %d %s  # enumerates; the failing history is: %s" % (binary, n, ln, raw, trace)})
+    run.extra["bounded_contract_on_module_graph_operations"] = {
+        "operation_sequences": total_seq, "postcondition_checks": total_checks, "distinct_final_graphs_with_edges": distinct, "exhaustive_within_bound": True,
+        "rule": "every sequence of operations from {add_node_if_none(p), inc_ref(a, b), remove(p), rename_path(p, fresh), sort} up to length L over N paths (%s as (N, L, op set)); after every operation: registered modules, get_node, depends_on, deep_depends_on, ancestors, children for every path (pair) are compared with a reference graph; inc_ref refused <=> the edge closes a cycle and then the edge set is unchanged; sorted lists every module after its dependencies, fails only on a cycle; the path index agrees with the node vector" % (configs,),
+        "samples": samples[:6]}
+    return {"findings": findings, "found": bool(findings), "note": "%d operation sequences, %d postcondition checks, no disagreement" % (total_seq, total_checks) if not findings else None}
+
+
+def run(run, replay_path=None, replay=None):
+    # the functions under (run-time-checked, bounded) contract must still be there
+    g = Source(run.repo, 'crates/erg_compiler/module/graph.rs')
+    fns = []
+    for f in ('get_node', 'depends_on', 'deep_depends_on', 'children', 'parents', 'ancestors', 'add_node_if_none', 'inc_ref', 'sorted', 'remove', 'rename_path'):
+        d = g.fn(f, impl=r'ModuleGraph').describe()
+        d["unit_label"] = "ModuleGraph::%s (BOUNDED run-time-checked contract only)" % f
+        fns.append(d)
+    run.functions.extend(fns)
+    # textual anchor: ModuleGraph::sorted is tsort on the node vector (so the proved contract of tsort is the contract of sort)
+    srt = g.fn('sorted', impl=r'ModuleGraph').text
+    if not re.search(r'tsort\(self\.graph\)', srt):
+        raise Undecided("ModuleGraph::sorted no longer calls tsort(self.graph): the proved contract of tsort does not carry over")
+    run.level = 'proof'
+    run.explorations.append(("ModuleGraph", lambda: explore_graph_ops(run)))
+    run_verus(run)
+    run.bounded_note = "the ModuleGraph operations (add_node_if_none, inc_ref, remove, rename_path, the queries) are covered only by the bounded run-time-checked contract (coverage.bounded_contract_on_module_graph_operations): all operation sequences up to the stated length over the stated number of paths; not counted in the obligations"
+    run.assumptions.append("ModuleGraph operations and queries: BOUNDED run-time-checked contracts only (exhaustive up to the stated sequence length and number of paths), not a deductive proof. Two op sets: the usual one registers an import target before inc_ref; the 'raw' one also calls inc_ref with an unregistered target (sort may then answer KeyNotFound, which is accepted). Rename targets are fresh paths.")
+    run.assumptions.append("tsort: hash set (erg_common::set::Set) seen as a mathematical set with the contracts of new/insert/contains/iter assumed; Iterator::find, slice::contains and reorder_by_key (slice::sort_by_key with Iterator::position as key) carry assumed std contracts; T := u64, U := () (rule R5; the code uses T only through Eq + Hash + Clone + Debug). ModuleGraph::sorted rebuilding `index` from the sorted vector (iterator chain into a Dict) is covered by the bounded contract only.")
